@@ -31,10 +31,10 @@ def config(quick):
         ws_n, ws_e, lw = [1, 3], [2, 4], [(1, 4), (4, 4), (3, 14)]
     wl = sorted(set(v for _, v in lw))
     sa = {
-        "Writer": [(w, 0) for w in ws_n], "AddWriter": [(w, 0) for w in ws_n], "RemoveWriter": [(w, 0) for w in ws_n],
-        "ErrorWriter": [(w, 0) for w in ws_e], "AddErrorWriter": [(w, 0) for w in ws_e],
-        "RemoveErrorWriter": [(w, 0) for w in ws_e],
-        "AddLevelWriter": lw, "RemoveLevelWriter": lw,
+        "Writer": [(w, 0) for w in ws_n + [0]], "AddWriter": [(w, 0) for w in ws_n + [0]], "RemoveWriter": [(w, 0) for w in ws_n + [0]],
+        "ErrorWriter": [(w, 0) for w in ws_e + [0]], "AddErrorWriter": [(w, 0) for w in ws_e],
+        "RemoveErrorWriter": [(w, 0) for w in ws_e + [0]],
+        "AddLevelWriter": lw + [(0, wl[0])], "RemoveLevelWriter": lw,
         "ResetLevelWriter": [(0, v) for v in wl], "ResetLevelWriters": [(0, 0)], "ResetWriters": [(0, 0)],
     }
     c = base(quick)
@@ -51,7 +51,7 @@ def config_new(quick):
 
 def rand_config(c):
     r = dict(c)
-    ws = [1, 2, 3, 4, 5, 8]
+    ws = [1, 2, 3, 4, 5, 8, 0]
     wl = [4, 14, 2, 8]
     r["wlevels"] = wl
     r["setter_args"] = {
